@@ -7,6 +7,9 @@
 #include <ffsm2/machine.hpp>
 #endif
 
+#include <array>
+#include <utility>
+
 #ifdef FFSM2_ENABLE_ALL
 #define VF_PLANS 1
 #define VF_SERIAL 1
@@ -219,6 +222,18 @@ int main() {
 		P::FSM::Instance m{ctx};
 		r += P::drive(m);
 		r += P::drivePayload(m, Pay{3, 4});
+	}
+	{	// context and payload types that live in namespace std (argument-dependent lookup then also searches std for every unqualified call
+		// the library makes with them)
+		using SCtx = std::pair<int, int>; using SPay = std::array<unsigned char, 8>;
+		using Cfg = ffsm2::Config::ContextT<SCtx>::PayloadT<SPay>;
+		using P = Prog<Cfg>;
+		P::FSM::Instance m{SCtx{1, 2}};
+		r += P::drive(m);
+		r += P::drivePayload(m, SPay{{1, 2, 3}});
+		SCtx lv{3, 4};
+		P::FSM::Instance m2{lv};
+		P::FSM::Instance copy{m2}; copy.update();
 	}
 	{	// pointer context, headless
 		using Cfg = ffsm2::Config::ContextT<Ctx*>::ManualActivation;
